@@ -24,10 +24,18 @@ CHECK_DEADLOCK FALSE
 """
 
 
-def wire_history(datagrams):
-    """datagrams: iterable of bytes as sent by a client.  -> [{"kind","ret","verb"}]"""
+def wire_history(datagrams, retransmits=False):
+    """datagrams: iterable of bytes as sent by a client.  -> [{"kind","ret","verb"}]
+    retransmits: the blocking stack re-sends the SAME request object after a timeout or an out-of-sequence
+    final segment: a datagram byte-identical to one of the last 40 is a retransmission, not a new number"""
     hist = []
+    recent = []
     for d in datagrams:
+        if retransmits:
+            if d in recent:
+                continue
+            recent.append(d)
+            del recent[:-40]
         i = d.find(b"<DATAS>")
         if not d.startswith(b"<PACKT>") or i < 0:
             continue
@@ -154,7 +162,7 @@ def threaded_session(n_cmds, rng, snapshot="/repo/tests/snapshots/default.snapsh
             s.drop = None
             s.pump(int((GeckoConfig.PING_FREQUENCY_IN_SECONDS + 5) / 0.05), dt=0.05)
             commands(n_cmds - n_cmds // 2)
-        return [wire_history(s.wire())]
+        return [wire_history(s.wire(), retransmits=True)]
 
 
 def run(ctx):
